@@ -75,7 +75,7 @@ theorem fileOpenSink_eq : fileOpenSink = fileOpenSinkExpected := rfl
 
 /-- `checkAllInstancesAreFinished`: the guard, close(runRes), toWait--, runCancel — model `PSt.check` -/
 def engineCheckAllFinishedExpected : String :=
-  "func() {$0.isStartFinished let $1=($0.isStartFinished() && $0.awaitedInstances >= $0.startedInstances) if(!$1){return()} close($0.runRes) recv($0.runRes) if($2){panic} set($0.runRes=nil) $0.toWait-- $0.runCancel}"
+  "func() {$0.isStartFinished let $1=($0.isStartFinished() && $0.awaitedInstances >= $0.startedInstances) if(!$1){return()} close($0.runRes) recv($0.runRes) if($2){panic} $0.toWait-- set($0.runRes=nil) $0.runCancel}"
 theorem engineCheckAllFinished_eq : engineCheckAllFinished = engineCheckAllFinishedExpected := rfl
 
 /-- `isStartFinished` is `startRes == nil` -/
@@ -85,7 +85,7 @@ theorem engineIsStartFinished_eq : engineIsStartFinished = engineIsStartFinished
 
 /-- `awaitRun`: loop while toWait > 0 over the four result channels; start and run results call the check — model `.awaitProv/.awaitAgg/.awaitStart/.awaitInst` -/
 def engineAwaitRunExpected : String :=
-  "func() {for($0.toWait > 0){select{case $1 := <-$0.aggregatorErr:{set($0.aggregatorErr=nil) $0.toWait-- errutil.IsCtxError($0.runCtx) if(!errutil.IsCtxError($0.runCtx, $1)){$0.onErrAwaited}} case $2 := <-$0.providerErr:{set($0.providerErr=nil) $0.toWait-- errutil.IsCtxError($0.runCtx) if(!errutil.IsCtxError($0.runCtx, $2)){$0.onErrAwaited}} case $3 := <-$0.runRes:{$0.awaitedInstances++ if($3.Err == outOfAmmoErr){$0.isStartFinished if(!$0.isStartFinished()){$0.instanceStartCancel}}else{errutil.IsCtxError($0.runCtx) if(!errutil.IsCtxError($0.runCtx, $3.Err)){$0.onErrAwaited}} $0.checkAllInstancesAreFinished} case $4 := <-$0.startRes:{set($0.startRes=nil) $0.toWait-- set($0.startedInstances=$4.Started) errutil.IsCtxError($0.instanceStartCtx) if(!errutil.IsCtxError($0.instanceStartCtx, $4.Err)){$0.onErrAwaited} $0.checkAllInstancesAreFinished}}}}"
+  "func() {for($0.toWait > 0){select{case $1 := <-$0.aggregatorErr:{$0.toWait-- set($0.aggregatorErr=nil) errutil.IsCtxError($0.runCtx) if(!errutil.IsCtxError($0.runCtx, $1)){$0.onErrAwaited}} case $2 := <-$0.providerErr:{$0.toWait-- set($0.providerErr=nil) errutil.IsCtxError($0.runCtx) if(!errutil.IsCtxError($0.runCtx, $2)){$0.onErrAwaited}} case $3 := <-$0.runRes:{$0.awaitedInstances++ if($3.Err == outOfAmmoErr){$0.isStartFinished if(!$0.isStartFinished()){$0.instanceStartCancel}}else{errutil.IsCtxError($0.runCtx) if(!errutil.IsCtxError($0.runCtx, $3.Err)){$0.onErrAwaited}} $0.checkAllInstancesAreFinished} case $4 := <-$0.startRes:{$0.toWait-- set($0.startRes=nil) set($0.startedInstances=$4.Started) errutil.IsCtxError($0.instanceStartCtx) if(!errutil.IsCtxError($0.instanceStartCtx, $4.Err)){$0.onErrAwaited} $0.checkAllInstancesAreFinished}}}}"
 theorem engineAwaitRun_eq : engineAwaitRun = engineAwaitRunExpected := rfl
 
 /-- `awaitRunAsync`: after awaitRun: close(awaitErr), onWaitDone — model `.waitDone` -/
@@ -183,6 +183,74 @@ def sampleDiscardedExpected : String :=
   "func() *Sample {time.Now $0.SetUserNet return($0)}"
 theorem sampleDiscarded_eq : sampleDiscarded = sampleDiscardedExpected := rfl
 
+
+/-! ### round 4: the helpers every sample / byte goes through, the rest of the pool's start-up path, options -/
+
+/-- `aggregatorWrapper.Report` (what `core/import` wraps phout in): exactly one synchronous `Report` of the wrapped aggregator per call — a Report that returned has queued its sample -/
+def wrapReportExpected : String :=
+  "func($0 core.Sample) {$1.Aggregator.Report}"
+theorem wrapReport_eq : wrapReport = wrapReportExpected := rfl
+
+/-- `WrapAggregator`: the wrapper around the given aggregator, nothing else -/
+def wrapAggregatorExpected : String :=
+  "func($0 Aggregator) core.Aggregator {return(&aggregatorWrapper{$0})}"
+theorem wrapAggregator_eq : wrapAggregator = wrapAggregatorExpected := rfl
+
+/-- `ioutil2.NewCallbackWriter` (between the JSON encoder's bufio layer and the sink): the callback, then the bytes and the result of the wrapped writer, unchanged -/
+def callbackWriterExpected : String :=
+  "func($0 io.Writer, $1 func()) WriterFunc {return(func($2 []byte) ($3 int, $4 error) { $1() return $0.Write($2) })}"
+theorem callbackWriter_eq : callbackWriter = callbackWriterExpected := rfl
+
+/-- `coreutil.ReturnSampleIfBorrowed`: one `Return` for a borrowed sample, nothing otherwise — model `C06Borrow` -/
+def returnIfBorrowedExpected : String :=
+  "func($0 core.Sample) {if(!$1){return()} $2.Return}"
+theorem returnIfBorrowed_eq : returnIfBorrowed = returnIfBorrowedExpected := rfl
+
+/-- `BufferSizeOrDefault`: 0 → the default, up to the minimum → the minimum, else the configured size -/
+def bufferSizeOrDefaultExpected : String :=
+  "func() int {if($0 == 0){return(DefaultBufferSize)} if($0 <= MinimalBufferSize){return(MinimalBufferSize)} return($0)}"
+theorem bufferSizeOrDefault_eq : bufferSizeOrDefault = bufferSizeOrDefaultExpected := rfl
+
+/-- `errutil.IsCtxError`: nil, or the cause is the context's own error — what the await loop does NOT hand to `onErrAwaited` -/
+def isCtxErrorExpected : String :=
+  "func($0 context.Context, $1 error) bool {if($1 == nil){return(true)} return($0.Err() == errors.Cause($1))}"
+theorem isCtxError_eq : isCtxError = isCtxErrorExpected := rfl
+
+/-- `buildNewInstanceSchedule`: per-instance schedules as they are; a shared one is wrapped with the on-finish callback -/
+def engineBuildScheduleExpected : String :=
+  "func($0 context.Context, $1 context.CancelFunc) ( func() (core.Schedule, error), error, ) {if($2.RPSPerInstance){return($2.NewRPSSchedule, nil)} $2.NewRPSSchedule if($3 != nil){return(nil, $3)} coreutil.NewCallbackOnFinishSchedule return(func() (core.Schedule, error) { return $4, $3 }, nil)}"
+theorem engineBuildSchedule_eq : engineBuildSchedule = engineBuildScheduleExpected := rfl
+
+/-- the shared schedule's on-finish callback: calls its second parameter (the cancel function) unless the first (the context) is done already; nothing else -/
+def engineScheduleFinishExpected : String :=
+  "func($0 context.Context, $1 context.CancelFunc) ( func() (core.Schedule, error), error, ) onfinish{select{case <-$0.Done():{return()} default:{$1}}}"
+theorem engineScheduleFinish_eq : engineScheduleFinish = engineScheduleFinishExpected := rfl
+
+/-- `warmUpGun`: a gun is made, warmed up when it can be, closed; any failure is returned -/
+def engineWarmUpGunExpected : String :=
+  "func($0 context.Context) error {$1.NewGun if($2 != nil){return(fmt.Errorf(\"can't initiate a gun: %w\", $2))} defer{closeGun} if($3){$4.WarmUp if($2 != nil){return(fmt.Errorf(\"gun warm up failed: %w\", $2))}} return(nil)}"
+theorem engineWarmUpGun_eq : engineWarmUpGun = engineWarmUpGunExpected := rfl
+
+/-- `newInstance`: schedule, gun, `Bind` to the pool's aggregator; a failure returns no instance -/
+def engineNewInstanceExpected : String :=
+  "func($0 context.Context, $1 *zap.Logger, $2 string, $3 int, $4 instanceDeps) (*instance, error) {$4.newSchedule if($5 != nil){return(nil, $5)} $4.newGun if($5 != nil){return(nil, $5)} $6.Bind if($5 != nil){closeGun return(nil, $5)} return($7, nil)}"
+theorem engineNewInstance_eq : engineNewInstance = engineNewInstanceExpected := rfl
+
+/-- `newAwaitRunHandle`: no calls -/
+def engineNewAwaitRunHandleExpected : String :=
+  "func($0 *poolAsyncRunHandle) (*runAwaitHandle, <-chan error) {return($1, $2)}"
+theorem engineNewAwaitRunHandle_eq : engineNewAwaitRunHandle = engineNewAwaitRunHandleExpected := rfl
+
+/-- `newPool`: the pool keeps the `onWaitDone` it is given (`Engine.wait.Done`) -/
+def engineNewPoolExpected : String :=
+  "func($0 *zap.Logger, $1 Metrics, $2 func(), $3 InstancePoolConfig) *instancePool {return(&instancePool{InstancePoolConfig: $3, log: $0, metrics: $1, onWaitDone: $2})}"
+theorem engineNewPool_eq : engineNewPool = engineNewPoolExpected := rfl
+
+/-- `NewEncoderAggregator`: a fresh `Reporter` of the configured queue size per aggregator -/
+def newEncoderAggregatorExpected : String :=
+  "func( $0 NewSampleEncoder, $1 EncoderAggregatorConfig, ) core.Aggregator {return(&dataSinkAggregator{ Reporter: *NewReporter($1.ReporterConfig), newEncoder: $0, conf: $1, })}"
+theorem newEncoderAggregator_eq : newEncoderAggregator = newEncoderAggregatorExpected := rfl
+
 /-- the file sink opens write-only, creates, TRUNCATES (a result file never keeps lines of an earlier run), does
 not append; permission 0644 -/
 theorem file_flags :
@@ -219,5 +287,84 @@ theorem ctx_tree :
     (cancelledBy engineCtxDerive engineHandleInstanceStartCancel).contains engineHandleRunCtx = false ∧
     (doneWith engineCtxDerive enginePoolCtxParam).contains engineHandleRunCtx = true ∧
     (doneWith engineCtxDerive engineHandleRunCtx).contains enginePoolCtxParam = false := by decide
+
+/-! ### round 4: option tables, defaults, plugin registration -/
+
+/-- option table lookup: Go field ↦ (option name, validate tag) -/
+def optionOf (t : List (String × String × String)) (field : String) : Option (String × String) :=
+  (t.find? fun r => r.1 == field).map (·.2)
+
+def defaultOf (t : List (String × Int)) (field : String) : Option Int :=
+  (t.find? fun r => r.1 == field).map (·.2)
+
+/-- what is registered under (kind, name): (constructor, default-config function) -/
+def registered (kind name : String) : Option (String × String) :=
+  (importRegistrations.find? fun r => r.1 == kind && r.2.1 == name).map (·.2.2)
+
+/-- **option names and validation** the harness (`kind=conf`) and the queue model rely on: the queue size of both
+aggregators is the option `sample-queue-size` (phout: `min=0` — an unbuffered channel is allowed, the queue model
+over-approximates it by one slot; encoder aggregators: `min=1`, the model's `cap ≥ 1`), ids are switched on by `id`,
+the destination is `destination` (phout) / `sink` + `path` (jsonlines over the file sink, both required), the
+writer's buffer is `buffer-size`, the flush period `flush-interval` -/
+theorem options :
+    optionOf phoutConfigFields "SampleQueueSize" = some ("sample-queue-size", "min=0") ∧
+    optionOf phoutConfigFields "ID" = some ("id", "") ∧
+    optionOf phoutConfigFields "Destination" = some ("destination", "") ∧
+    optionOf phoutConfigFields "Buffer.BufferSize" = some ("buffer-size", "") ∧
+    optionOf jsonlinesConfigFields "EncoderAggregatorConfig.ReporterConfig.SampleQueueSize" = some ("sample-queue-size", "min=1") ∧
+    optionOf jsonlinesConfigFields "EncoderAggregatorConfig.Sink" = some ("sink", "required") ∧
+    optionOf jsonlinesConfigFields "EncoderAggregatorConfig.FlushInterval" = some ("flush-interval", "") ∧
+    optionOf jsonlinesConfigFields "JSONLineEncoderConfig.BufferSizeConfig.BufferSize" = some ("buffer-size", "") ∧
+    optionOf fileSinkConfigFields "Path" = some ("path", "required") := by decide
+
+/-- the default configurations pass their own validation: the encoder aggregators' default queue holds at least one
+sample, phout's is not negative; the defaults are reached through the default-config functions that are registered -/
+theorem queue_defaults :
+    (defaultOf reporterDefaults "SampleQueueSize").any (fun n => decide (1 ≤ n)) = true ∧
+    (defaultOf phoutDefaults "SampleQueueSize").any (fun n => decide (0 ≤ n)) = true ∧
+    encoderDefaults.any (fun r => r.1 == "ReporterConfig=DefaultReporterConfig") = true ∧
+    jsonlinesDefaults.any (fun r => r.1 == "EncoderAggregatorConfig=DefaultEncoderAggregatorConfig") = true := by decide
+
+/-- **what a config's `type: phout` / `jsonlines` / `json` / sink `file` builds**: phout is `NewPhout` over the
+process's file system, wrapped by `WrapAggregator` (so every Report goes through `aggregatorWrapper.Report`), with
+`DefaultPhoutConfig` underneath the user's options; jsonlines / json are `NewJSONLinesAggregator` over
+`DefaultJSONLinesAggregatorConfig`; the `file` sink is `datasink.NewFile` over the same file system -/
+theorem registrations :
+    registered "Aggregator" "phout" =
+      some ("func($0 netsample.PhoutConfig) (core.Aggregator, error) {netsample.NewPhout return(netsample.WrapAggregator($1), $2)}",
+            "netsample.DefaultPhoutConfig") ∧
+    registered "Aggregator" "jsonlines" = some ("aggregator.NewJSONLinesAggregator", "aggregator.DefaultJSONLinesAggregatorConfig") ∧
+    registered "Aggregator" "json" = some ("aggregator.NewJSONLinesAggregator", "aggregator.DefaultJSONLinesAggregatorConfig") ∧
+    registered "DataSink" "file" = some ("func($0 datasink.FileConfig) core.DataSink {return(datasink.NewFile($1, $0))}", "") := by decide
+
+/-- `BufferSizeOrDefault` as its skeleton reads, over the regenerated constants -/
+def bufSize (n : Nat) : Nat :=
+  if n = 0 then bufferDefaultSize else if n ≤ bufferMinimalSize then bufferMinimalSize else n
+
+/-- whatever `buffer-size` says, the writers are built with a positive size of at least the minimum; a size above the
+minimum is taken as it is -/
+theorem bufSize_ok (n : Nat) : 0 < bufSize n ∧ bufferMinimalSize ≤ bufSize n ∧ (bufferMinimalSize < n → bufSize n = n) := by
+  have hmin : bufferMinimalSize = 4096 ∨ 0 < bufferMinimalSize := Or.inr (by decide)
+  have hle : bufferMinimalSize ≤ bufferDefaultSize := by decide
+  have hpos : 0 < bufferMinimalSize := by decide
+  unfold bufSize
+  refine ⟨?_, ?_, ?_⟩
+  · split
+    · omega
+    · split <;> omega
+  · split
+    · omega
+    · split <;> omega
+  · intro h
+    have : n ≠ 0 := by omega
+    simp [this]
+    omega
+
+/-- the shared schedule's on-finish callback gets runAsync's `instanceStartCtx` / `instanceStartCancel`: when the
+shared RPS schedule runs out it stops the START of further instances, and — `ctx_tree` — cancels neither the
+aggregator nor the instances that are still shooting -/
+theorem schedule_finish_args :
+    engineBuildScheduleArgs = [engineHandleInstanceStartCtx, engineHandleInstanceStartCancel] := by decide
+
 
 end Pandora.Bridge.AggQ
